@@ -5164,6 +5164,14 @@ int32_t matrixSslEncodeClientHello(ssl_t *ssl, sslBuf_t *out,
         ssl->flags &= ~SSL_FLAGS_RESUMED;
     }
 
+    /* TLS_FALLBACK_SCSV goes out only when this call asks for it: a flag left
+       over from an earlier ClientHello of the session would be written below
+       without being counted in cipherLen */
+    if (!options->fallbackScsv)
+    {
+        ssl->extFlags.req_fallback_scsv = 0;
+    }
+
     if (cipherSpecLen == 0 || cipherSpecs == NULL || cipherSpecs[0] == 0)
     {
         if ((cipherLen = sslGetCipherSpecListLen(ssl)) == 2)
